@@ -26,8 +26,32 @@ class FunctionReport:
     solver_ms: int = 0
     wall_ms: int = 0
     paths: int = 0
+    symexec_ms: int = 0
     assumed_calls: List[str] = field(default_factory=list)
     callees: List[str] = field(default_factory=list)
+
+
+_PAR = {}
+
+
+def _solve_slice(k):
+    axioms, obs, tier, budget_ms, n = _PAR["args"]
+    out = []
+    for idx, ob in enumerate(obs):
+        if idx % n == k:
+            out.append((idx, discharge(axioms, ob, tier, budget_ms)))
+    return out
+
+
+def _parallel_discharge(axioms, obs, tier, budget_ms, n):
+    import multiprocessing as mp
+
+    _PAR["args"] = (axioms, obs, tier, budget_ms, n)
+    ctx = mp.get_context("fork")
+    with ctx.Pool(n) as pool:
+        parts = pool.map(_solve_slice, range(n))
+    res = sorted((x for part in parts for x in part), key=lambda x: x[0])
+    return [v for _, v in res]
 
 
 def verify(target: str, tier: str = "quick", budget_ms: int = 10000, shard=(0, 1)) -> FunctionReport:
@@ -44,10 +68,16 @@ def verify(target: str, tier: str = "quick", budget_ms: int = 10000, shard=(0, 1
         ex = Executor(c, reg)
         obs = ex.run()
         axioms = ex.axioms()
-        for idx, ob in enumerate(obs):
-            if idx % shard[1] != shard[0]:
-                continue
-            v = discharge(axioms, ob, tier, budget_ms)
+        t_sym = time.time()
+        rep.symexec_ms = int((t_sym - t0) * 1000)
+        n_par = int(getattr(c, "shards", 1))
+        if n_par > 1 and len(obs) > 8:
+            # the obligations of one function are discharged by forked workers (the z3 terms
+            # built by the symbolic execution are inherited through fork, nothing is re-executed)
+            verdicts = _parallel_discharge(axioms, obs, tier, budget_ms, n_par)
+        else:
+            verdicts = [discharge(axioms, ob, tier, budget_ms) for ob in obs]
+        for v in verdicts:
             rep.verdicts.append(v)
             rep.solver_ms += v.ms
         rep.paths = ex.paths
